@@ -1280,11 +1280,16 @@ func (r *Resolver) getTrigger(id uint64) (*trigger, bool) {
 // Trigger ids are re-used: nothing happens if the trigger was removed meanwhile,
 // even if a new trigger is registered under the same id by now.
 func (r *Resolver) markTriggerInitialized(started *trigger) {
-	trig, ok := r.getTrigger(started.id)
+	// Removals read initialized under r.mu to decide whether the trigger was counted:
+	// the flag must be set in the critical section that found the trigger still registered.
+	r.mu.Lock()
+	trig, ok := r.triggers[started.id]
 	if !ok || trig != started {
+		r.mu.Unlock()
 		return
 	}
 	trig.initialized.Store(true)
+	r.mu.Unlock()
 	if r.reporter != nil {
 		r.reporter.TriggerCountInc(1)
 	}
